@@ -50,3 +50,51 @@ Fixpoint split_semi (ps : list piece) (cur : list piece) : list (list piece) :=
   end.
 Definition statements (ps : list piece) : list str :=
   filter (fun x => match x with [] => false | _ => true end) (map (fun g => canon (render_pieces g)) (split_semi ps [])).
+
+(* ---- layouts: how one logical line is spread over physical lines ----
+   The character stream of the logical line is cut into segments; every segment but the last
+   ends with '&' (optionally followed by blanks and an ordinary comment), every segment but the
+   first starts with '&' (the exact-join form of continuation, mandatory inside tokens and
+   literals); blank lines and ordinary comment lines may follow a continued line. *)
+Inductive bline := BBlank (n : nat) | BComment (ind : nat) (text : str).
+Record seg := { sg_ind : nat; sg_text : str; sg_trail : nat; sg_comment : option str;
+                sg_between : list bline }.
+
+Definition render_bline (b : bline) : str :=
+  match b with BBlank n => spaces n | BComment i t => spaces i ++ bang :: t end.
+
+Definition render_comment (c : option str) : str :=
+  match c with Some t => bang :: t | None => [] end.
+
+Definition render_seg_line (first last : bool) (sg : seg) : str :=
+  spaces (sg_ind sg) ++ ((if first then [] else [amp]) ++ sg_text sg ++ (if last then [] else [amp]))
+  ++ spaces (sg_trail sg) ++ render_comment (sg_comment sg).
+
+Fixpoint render_segs (first : bool) (l : list seg) : list str :=
+  match l with
+  | [] => []
+  | [sg] => [render_seg_line first true sg]
+  | sg :: l' => render_seg_line first false sg :: map render_bline (sg_between sg) ++ render_segs false l'
+  end.
+
+Definition ll_text (l : list seg) : str := flat_map sg_text l.
+
+(* a file: logical lines with blank and ordinary comment lines around them *)
+Inductive fitem := FBlank (n : nat) | FComment (ind : nat) (text : str) | FLine (segs : list seg).
+
+Definition render_item (it : fitem) : list str :=
+  match it with
+  | FBlank n => [spaces n]
+  | FComment i t => [spaces i ++ bang :: t]
+  | FLine segs => render_segs true segs
+  end.
+Definition render_file (f : list fitem) : list str := flat_map render_item f.
+
+(* the character streams of the logical lines, in order: all that the statements may depend on *)
+Definition file_texts (f : list fitem) : list str :=
+  flat_map (fun it => match it with FLine segs => [ll_text segs] | _ => [] end) f.
+
+(* what a logical line with character stream x yields: the ';'-separated parts outside
+   literals, each trimmed *)
+Definition stmts_of (x : str) : list str :=
+  map strip (filter (fun y => match y with [] => false | _ => true end) (quote_split semi (" "%char :: x))).
